@@ -47,6 +47,9 @@ type vfGapItem struct {
 	text string
 }
 
+// vfOnlyGap >= 0 fixes the first gap instead of forking over all gaps (used by targeted harnesses).
+var vfOnlyGap = -1
+
 func vfGapItems(tag string, max int) []vfGapItem {
 	n := vfChoice(tag+".n", max+1)
 	var items []vfGapItem
@@ -278,7 +281,10 @@ func vfGapTree(n dst.Node, maxItems int, twoGaps bool, setup func(fd *fileDecora
 	if ngaps < 1 {
 		return
 	}
-	g1 := vfChoice("gap", ngaps)
+	g1 := vfOnlyGap
+	if g1 < 0 || g1 >= ngaps {
+		g1 = vfChoice("gap", ngaps)
+	}
 	// A comment or line break that stands in front of a token without a position in go/ast (range,
 	// else, the '.' of a selector, ...) is sorted behind that token by fragment() (the token's guessed
 	// position is the end of the previous token): such gaps never receive items in a real fragment list.
@@ -522,12 +528,16 @@ func VerifC08Gap() {
 	})
 }
 
-// C15 (2) on ordinary neighbours: arbitrary comment / line-break sequences (up to 2 items; 3 in
-// thorough) in every gap of a block and of a switch with case clauses (the hanging-indent special case
-// of link()) never make link, decorate or restore panic.
+// C15 (2) on ordinary neighbours: arbitrary comment / line-break sequences in every gap of a block (up
+// to 2 items; 3 in thorough), of a switch with case clauses, an if/else and a select (1; 2 in thorough;
+// the hanging-indent logic gets three items in VerifC15Hanging) never make link, decorate or restore panic.
 func vfC15Gap(config int) {
 	vfCanonical, vfCheckLines = false, false
-	vfGap(config, 2+vfTier(), false)
+	max := 1 + vfTier()
+	if config == 0 {
+		max = 2 + vfTier()
+	}
+	vfGap(config, max, false)
 }
 func VerifC15Gap0() { vfC15Gap(0) }
 func VerifC15Gap3() { vfC15Gap(3) }
@@ -537,3 +547,47 @@ func VerifC15Gap11() { vfC15Gap(11) }
 // VerifC08QualifiedPoints: the decoration points of an expanded qualified identifier (same harness as
 // VerifC04Qualified, run under C08 as well: "expand back with every interior comment intact").
 func VerifC08QualifiedPoints() { VerifC04Qualified() }
+
+
+// VerifC15Hanging: the hanging-indent logic of link() (End of a statement / case clause followed by
+// own-line comments at the body indent, the clause indent, or a third indent) with up to three items in
+// the gap behind the last statement of a case clause, and behind a comm clause.
+func VerifC15Hanging() {
+	vfCanonical, vfCheckLines = false, false
+	if vfChoice("select", 2) == 0 {
+		// switch x { case a: s ; default: }  -> token-ish fragments: switch x { case a : s default : }
+		vfOnlyGap = 6 // behind "s", in front of the next clause
+		vfGap(3, 3, false)
+	} else {
+		vfOnlyGap = 9 // config 11: L : select { case c <- v : go g ( ) | case ...
+		vfGap(11, 3, false)
+	}
+	vfOnlyGap = -1
+}
+func VerifC15Gap10() {
+	vfCanonical, vfCheckLines = false, false
+	vfGap(10, 1+vfTier(), false)
+}
+
+// C03 runs the targeted hanging-indent harness and the range-statement configuration as well
+// ("nothing is dropped, duplicated, reordered" holds for arbitrary indents and three items).
+func VerifC03Hanging() { VerifC15Hanging() }
+func VerifC03Gap10Quick() {
+	if vfTier() > 0 {
+		return // thorough runs VerifC03Gap10
+	}
+	vfCanonical, vfCheckLines = false, false
+	vfGap(10, 1, false)
+}
+
+// VerifC03TypeSpecs: two comments behind a type spec inside a parenthesised group (the comments go to
+// the spec's Comment field): conservation with up to two items in the gap behind the first spec.
+func VerifC03TypeSpecs() {
+	vfCanonical, vfCheckLines = false, false
+	n := &dst.GenDecl{Tok: token.TYPE, Lparen: true, Rparen: true, Specs: []dst.Spec{
+		&dst.TypeSpec{Name: vfIdent("A"), Type: vfIdent("int")},
+		&dst.TypeSpec{Name: vfIdent("B"), Type: vfIdent("int")}}}
+	vfOnlyGap = 3 // type ( A int | B int )
+	vfGapTree(n, 2, false, nil)
+	vfOnlyGap = -1
+}
